@@ -2,6 +2,7 @@
 
 use frost_core::keys::{
     CoefficientCommitment, IdentifierList, KeyPackage, SecretShare, SigningShare, VerifiableSecretSharingCommitment,
+    VerifyingShare,
 };
 use frost_core::{Identifier, SigningKey};
 use serde_json::json;
@@ -231,6 +232,33 @@ fn params<C: Suite>(ctx: &mut Ctx) {
                 ctx.count("parameter_pairs");
             }
             ctx.class(format!("params/n={n}/t={t}"));
+        }
+    }
+    // the u16 boundary for real: n = 65535 (and 65534) with default identifiers — every participant gets a share
+    if C::NAME == "ed25519" || (!ctx.quick() && fast) {
+        for n in [65535u16, 65534] {
+            if ctx.quick() && n != 65535 {
+                continue;
+            }
+            match frost_core::keys::split(&key, n, 2, IdentifierList::Default, &mut rng) {
+                Ok((shares, pkp)) => {
+                    let last = Identifier::<C>::try_from(n).unwrap();
+                    let first = Identifier::<C>::try_from(1u16).unwrap();
+                    if shares.len() != n as usize || pkp.verifying_shares().len() != n as usize || !shares.contains_key(&last) || !shares.contains_key(&first) {
+                        ctx.viol("dealer-output-inconsistent", "identifier-set-at-u16-boundary", json!({"n": n, "shares": shares.len(), "public_entries": pkp.verifying_shares().len()}));
+                    }
+                    for id in [first, last, Identifier::<C>::try_from(n / 2).unwrap()] {
+                        if let Some(sh) = shares.get(&id) {
+                            if KeyPackage::<C>::try_from(sh.clone()).is_err() || Some(&VerifyingShare::from(*sh.signing_share())) != pkp.verifying_shares().get(&id) {
+                                ctx.viol("honest-share-rejected", "u16-boundary", json!({"n": n, "id": id_hex::<C>(&id)}));
+                            }
+                        }
+                    }
+                }
+                Err(e) => ctx.viol("parameter-validation", "valid-refused", json!({"n": n, "t": 2, "err": format!("{e:?}")})),
+            }
+            ctx.count("u16_boundary_runs");
+            ctx.class(format!("params/n={n}/default-identifiers"));
         }
     }
     // identifier list: wrong count, duplicates, boundary u16 values
